@@ -294,6 +294,20 @@ func C19(c *Ctx) {
 			}
 			counts[digest(res)]++
 		}
+		if first.Exit == 0 && !hasFlag(j.flags, "-o") && !hasFlag(j.flags, "-x") {
+			// the same command writing to -o FILE, where FILE holds what an earlier, larger generation left
+			// there: the file is a function of text and flags, not of what the path held before
+			of := filepath.Join(c.W.Dir, fmt.Sprintf("c19-out-%d.go", i))
+			os.WriteFile(of, append(append([]byte{}, first.Stdout...), []byte(strings.Repeat("// left over from an earlier, larger generation\nvar _ = 0\n", 300))...), 0o644)
+			ro := c.W.RunPigeon(c.W.Pigeon, j.text, 60*time.Second, nil, append(append([]string{}, j.flags...), "-o", of)...)
+			got, _ := os.ReadFile(of)
+			os.Remove(of)
+			c.CovAdd("runs_with_o_flag_over_an_older_file", 1)
+			if ro.Exit == 0 && !bytes.Equal(got, first.Stdout) {
+				c.Report(&Violation{Class: "C19/output-depends-on-old-file", Summary: fmt.Sprintf("pigeon %v -o FILE over an older, longer FILE leaves %d bytes where the same command writes %d bytes to stdout: the generated file depends on what the path held before; grammar %s", j.flags, len(got), len(first.Stdout), trunc(j.name)),
+					Grammar: string(j.text), Flags: j.flags})
+			}
+		}
 		c.Eval(R)
 		if first.Exit == 0 && j.rules >= 2 {
 			c.Distinct(j.name + strings.Join(j.flags, " "))
